@@ -210,6 +210,7 @@ Lemma sinv_closedCh s b : SInv s -> SInv (s <| closedCh := b |>). Proof. intros 
 Lemma sinv_closedF s b : SInv s -> SInv (s <| closedF := b |>). Proof. intros I. irrel I. Qed.
 Lemma sinv_clock s b : SInv s -> SInv (s <| clock := b |>). Proof. intros I. irrel I. Qed.
 Lemma sinv_hadded s b : SInv s -> SInv (s <| hadded := b |>). Proof. intros I. irrel I. Qed.
+Lemma sinv_wremoved s b : SInv s -> SInv (s <| wremoved := b |>). Proof. intros I. irrel I. Qed.
 
 Lemma not_removed s h : SInv s -> h_loop (hs s h) <> LNone -> h_removed (hs s h) = false.
 Proof.
